@@ -1,0 +1,8 @@
+//go:build !verif
+
+// Package verifhook provides yield points for the verification harness.
+// Without the "verif" build tag Yield is an empty, inlinable function.
+package verifhook
+
+// Yield does nothing in normal builds.
+func Yield(point string) {}
